@@ -3,6 +3,7 @@ package rules
 import (
 	"fmt"
 	"go/token"
+	"go/types"
 	"strings"
 
 	"golang.org/x/tools/go/ssa"
@@ -20,6 +21,10 @@ func init() {
 		Doc: "every database call's error is tested and its failing edge returns non-nil", Run: runTx3})
 	reg(&core.RuleInfo{Name: "TX-4", Props: []string{"C14", "C06"}, Engine: "CFG", Floor: 5, Confirmed: 7,
 		Doc: "dependent inserts guarded by RowsAffected != 0; tombstones idempotent", Run: runTx4})
+	reg(&core.RuleInfo{Name: "TX-BATCH", Props: []string{"C14"}, Engine: "CG", Floor: 1, Confirmed: 2,
+		Doc: "a batch reaches the transaction function whole: no caller splits it over several transactions", Run: runTxBatch})
+	reg(&core.RuleInfo{Name: "BATCH-ALL", Props: []string{"C06", "C14"}, Engine: "CFG", Floor: 1, Confirmed: 1,
+		Doc: "an event of a batch is skipped only for the recognised reasons (not stored kind, unencodable)", Run: runBatchAll})
 	reg(&core.RuleInfo{Name: "TX-5", Props: []string{"C14"}, Engine: "PROV", Floor: 2, Confirmed: 3,
 		Doc: "the hash seed returned is the seed persisted; the handler's seed comes only from there", Run: runTx5})
 }
@@ -503,4 +508,149 @@ func runDDLIdemp(c *core.Ctx) {
 		}
 	}
 	c.Check(okErr, nil, fname(c, mig), "ddl/error", P.Pos(mig.Pos()), "a failing schema statement is reported", "errors of schema statements are ignored")
+}
+
+// TX-BATCH (who-may-call, closed world): "one batch = one transaction" needs
+// the batch to arrive at the function that opens the transaction unsplit. At
+// every call site on the way up, the batch argument is either the caller's own
+// batch parameter passed on whole, or a batch that originates there (a local
+// accumulation); a part of a batch parameter (a sub-slice, the element of a
+// chunk iteration) means several transactions per batch: a failure in a later
+// part leaves the earlier parts committed.
+func runTxBatch(c *core.Ctx) {
+	P := c.P
+	tx, _ := txFunc(c)
+	if tx == nil {
+		c.NoAnchor(nil, "the function calling (*sql.DB).BeginTx")
+		return
+	}
+	isBatch := func(t types.Type) bool {
+		sl, ok := t.Underlying().(*types.Slice)
+		return ok && strings.HasSuffix(sl.Elem().String(), "mocrelay.Event")
+	}
+	batchParam := func(fn *ssa.Function) int {
+		for i, p := range fn.Params {
+			if isBatch(p.Type()) {
+				return i
+			}
+		}
+		return -1
+	}
+	if batchParam(tx) < 0 {
+		c.Unknown(nil, fname(c, tx), "batch-param", P.Pos(tx.Pos()), "the transaction function takes no batch of events")
+		return
+	}
+	seen := map[*ssa.Function]bool{}
+	var walk func(callee *ssa.Function, depth int)
+	n := 0
+	walk = func(callee *ssa.Function, depth int) {
+		if seen[callee] || depth > 6 {
+			return
+		}
+		seen[callee] = true
+		bp := batchParam(callee)
+		for _, g := range sqliteFuncs(c) {
+			for _, call := range callsTo(g, callee) {
+				n++
+				c.CountSites(1)
+				arg := call.Call.Args[bp]
+				ap := an.PathOf(arg)
+				// is the argument a part of a batch parameter of g or of a function g is nested in?
+				encl := g
+				partOf := ""
+				for encl != nil {
+					if i := batchParam(encl); i >= 0 {
+						root := "p:" + encl.Params[i].Name()
+						whole := encl == g && ap == root
+						if whole {
+							partOf = ""
+							break
+						}
+						if encl != g || strings.HasPrefix(ap, root) {
+							partOf = fname(c, encl) + "'s batch " + root
+						}
+					}
+					encl = encl.Parent()
+				}
+				c.Check(partOf == "", nil, fname(c, g), "batch→"+callee.Name(), P.Pos(call.Pos()), "the batch is handed on whole ("+clip(ap, 40)+")",
+					"the transaction function receives a part of "+partOf+" ("+clip(ap, 40)+"): one batch is written in several transactions, so a failure part-way leaves the earlier parts committed")
+				if i := batchParam(g); i >= 0 && ap == "p:"+g.Params[i].Name() {
+					walk(g, depth+1)
+				}
+			}
+		}
+	}
+	walk(tx, 0)
+	if n == 0 {
+		c.NoAnchor(nil, "callers of the transaction function")
+	}
+}
+
+// BATCH-ALL (closed world): building the rows of a batch visits every event;
+// an event contributes no rows only if it has no storage key (ephemeral /
+// d-less addressable) or cannot be encoded. Any other reason to skip — e.g.
+// "its key was already seen in this batch" — silently drops a version that the
+// upsert was meant to arbitrate.
+func runBatchAll(c *core.Ctx) {
+	P := c.P
+	var fn *ssa.Function
+	var emit *ssa.BasicBlock
+	for _, f := range sqliteFuncs(c) {
+		an.Instrs(f, func(in ssa.Instruction) {
+			call, ok := in.(*ssa.Call)
+			if !ok {
+				return
+			}
+			if b, isB := call.Call.Value.(*ssa.Builtin); isB && b.Name() == "append" && an.InLoop(call.Block()) {
+				if sl, ok := call.Type().Underlying().(*types.Slice); ok && typeNameOf(sl.Elem()) == "insertEventsParams" {
+					fn, emit = f, call.Block()
+				}
+			}
+		})
+	}
+	if fn == nil {
+		c.NoAnchor(nil, "the loop appending insertEventsParams per event")
+		return
+	}
+	c.CountFuncs(1)
+	h := an.LoopHeaderOf(emit)
+	paths, ok := an.IterPaths(h, func(b *ssa.BasicBlock) bool { _, r := an.LastInstr(b).(*ssa.Return); return r }, 1024)
+	if !ok {
+		c.Unknown(nil, fname(c, fn), "skips", P.Pos(fn.Pos()), "too many paths")
+		return
+	}
+	loop := an.LoopBlocks(h)
+	var bad []string
+	nskip := 0
+	for _, p := range paths {
+		if len(p) < 2 || !loop[p[1]] || p[len(p)-1] != h || p.Contains(emit) {
+			continue
+		}
+		nskip++
+		reason := false
+		var why []string
+		for _, cd := range p[:len(p)].Conds() {
+			cd = an.NormCond(cd)
+			cp := an.PathOf(cd.V)
+			why = append(why, fmt.Sprintf("%s=%v", clip(cp, 60), cd.True))
+			// no storage key
+			if strings.HasPrefix(cp, "call:") && strings.Contains(cp, "getEventKey(") && strings.HasSuffix(cp, "#1") && !cd.True {
+				reason = true
+			}
+			// a builder failed
+			if b, isBin := cd.V.(*ssa.BinOp); isBin && an.IsNilConst(b.Y) && (b.Op == token.NEQ) == cd.True {
+				if ex, isEx := b.X.(*ssa.Extract); isEx {
+					if _, isCall := ex.Tuple.(*ssa.Call); isCall && types.Identical(ex.Type(), types.Universe.Lookup("error").Type()) {
+						reason = true
+					}
+				}
+			}
+		}
+		if !reason {
+			bad = append(bad, strings.Join(why, " ∧ "))
+		}
+	}
+	c.CountPaths(len(paths))
+	c.Check(len(bad) == 0 && nskip > 0, nil, fname(c, fn), "skips", P.Pos(fn.Pos()), fmt.Sprintf("all %d ways an event contributes no rows: it has no storage key, or a row builder failed", nskip),
+		"an event of the batch is skipped for another reason ("+strings.Join(bad, " | ")+"): a later version of an address in the same batch never reaches the upsert")
 }
